@@ -478,4 +478,22 @@ def codeSort {α : Type} (lt : α → α → Bool) (comb : α → α → Option 
       | .error e => .error e
       | .ok out => .ok (out, m.passes, m.ret)
 
+/-- The way `lmplz` drives the sort (lm/builder/pipeline.cc:69-73, 107-123):
+`r = Merge(lazy); …; Output(chain, r)` — `Output` calls `Merge(r)` again and then merges lazily
+with `r` bytes.  Returns the output, the total number of passes and `r`. -/
+def codeSortRet {α : Type} (lt : α → α → Bool) (comb : α → α → Option α) (pick : List (QEntry α) → Nat)
+    (cfg : Cfg) (lazyMem : Nat) (blocks : List (List α)) : Except PlanErr (List α × Nat × Nat) :=
+  match afterBlockSorter lt blocks with
+  | none => .error .offsets
+  | some runs =>
+    match codeMerge lt comb pick cfg lazyMem runs with
+    | .error e => .error e
+    | .ok m =>
+      match codeMerge lt comb pick cfg m.ret m.runs with
+      | .error e => .error e
+      | .ok m2 =>
+        match codeFinal lt comb pick cfg m.ret m2.runs with
+        | .error e => .error e
+        | .ok out => .ok (out, m.passes + m2.passes, m.ret)
+
 end KV.Sort
